@@ -233,7 +233,12 @@ def finish(ctx, level="model_checking"):
     known = [k for k in load_known() if k.get("status") == "known" and k.get("property") == ctx.prop]
     real = []
     printed_known = set()
-    for v in ctx.violations:
+    extras = [v for v in ctx.violations if v.get("property") == "EXTRA"]
+    for v in extras[:5]:
+        # behaviour specified beyond the ten listed properties: reported, never an alarm for this property
+        log(f"EXTRA-FINDING (outside the listed properties): {v.get('what','')} replay={v.get('replay')}")
+    ctx.extra["extra_behaviour_mismatches"] = len(extras)
+    for v in [x for x in ctx.violations if x.get("property") != "EXTRA"]:
         hit = None
         for k in known:
             if re.search(k["match"], v.get("what", "")):
@@ -390,12 +395,16 @@ def check_C04(ctx):
                 "Builtins::new(name, kind) incl. aliases, the concrete structs and HpoTerm::similarity_score for 8 algorithms x 3 kinds, both argument orders; "
                 "non-trivial = behaviour with at least one edge and one fact")
     outs = [tlc(ctx, "mc/MC_Sim3.cfg", "mc/MC_AnnotHist.tla")["out"]]
+    # growth beyond the listed properties (HpoSetOps: path queries, HpoSet operations) rides on the same replay
+    outs.append(tlc(ctx, "mc/MC_Extras3q.cfg" if ctx.quick else "mc/MC_Extras3.cfg", "mc/MC_AnnotHist.tla", workers=14, timeout=1800)["out"])
     if not ctx.quick:
-        outs.append(tlc(ctx, "mc/MC_Sim4.cfg", "mc/MC_AnnotHist.tla", workers=14, timeout=1800)["out"])
+        outs.append(tlc(ctx, "mc/MC_Extras4.cfg", "mc/MC_AnnotHist.tla", workers=14, timeout=1800)["out"])
     outs.append(tlc(ctx, "mc/Sim_FullPairs.cfg", "mc/MC_Full.tla", workers=4 if ctx.quick else 8, simulate=40 if ctx.quick else 600, depth=45)["out"])
     allout = concat(ctx, outs, "c04-lines.txt")
     s = hv(ctx, "replay-sim", prop="C04", **{"in": allout})
     ctx.traces += s.get("cases", 0)
+    ctx.extra["extra_path_queries"] = s.get("counters", {}).get("extra_path_queries", 0)
+    ctx.extra["extra_set_queries"] = s.get("counters", {}).get("extra_set_queries", 0)
     ctx.assumptions += ["ln/exp and f32 rounding are outside TLA+: formulas are evaluated by the harness in f64 from TLC's exact arguments, tolerance rel 1e-4 / abs 1e-5",
                         "formula table follows crate documentation + doctest-pinned conventions (union of ancestors excludes the terms themselves)"]
     return finish(ctx)
